@@ -9,17 +9,23 @@ def gen_script(rng, nops):
     lines = ['mgr']
     nm, alive_m = 1, [0]
     nr, recvs = 0, []          # (id, manager, alive)
+    where = {}                 # receiver -> manager it is subscribed to (None: unsubscribed)
     for _ in range(nops):
+        idle = [r for r in recvs if where.get(r) is None or where.get(r) not in alive_m]
         c = rng.weighted([('mgr', 6), ('delmgr', 3 if len(alive_m) > 1 else 0), ('sub', 34 if alive_m else 0), ('unsub', 12 if recvs else 0),
-                          ('delrecv', 8 if recvs else 0), ('post', 30 if alive_m else 0)])
+                          ('delrecv', 8 if recvs else 0), ('post', 30 if alive_m else 0), ('resub', 10 if idle and alive_m else 0)])
+        if c == 'resub':
+            # the same receiver object subscribes again (to the same or another manager) after it was unsubscribed
+            r = rng.pick(idle); m = rng.pick(alive_m); lines.append('resub %d %d' % (r, m)); where[r] = m
+            continue
         if c == 'mgr':
             lines.append('mgr'); alive_m.append(nm); nm += 1
         elif c == 'delmgr':
             m = rng.pick(alive_m); alive_m.remove(m); lines.append('delmgr %d' % m)
         elif c == 'sub':
-            lines.append('sub %d %d' % (rng.pick(alive_m), rng.below(4))); recvs.append(nr); nr += 1
+            m_ = rng.pick(alive_m); lines.append('sub %d %d' % (m_, rng.below(4))); recvs.append(nr); where[nr] = m_; nr += 1
         elif c == 'unsub':
-            lines.append('unsub %d' % rng.pick(recvs))
+            r_ = rng.pick(recvs); lines.append('unsub %d' % r_); where[r_] = None
         elif c == 'delrecv':
             r = rng.pick(recvs); recvs.remove(r); lines.append('delrecv %d' % r)
         elif c == 'post':
